@@ -10,7 +10,7 @@ single cosine mode gives ``f / lambda_k`` (closed form); an independent DCT-II s
 solves of the same object bitwise.
 
 Noise floor (measured, see ``max err/tol`` in the evidence):
-    T_res = eps_t * (16 n_max^2 |f|max + 64 ||A|| |u|max),      ||A|| = 4 d / dx^2
+    T_res = eps_t * (32 n_max^2 |f|max + 64 ||A|| |u|max),      ||A|| = 4 d / dx^2
 The second term is the backward error of a computed eigendecomposition (A V^ = V^ L^ + E, |E| ~
 eps ||A||).  The first term is the accuracy of the *computed null vector*: the gap between the zero
 eigenvalue and the next one is (pi/n)^2/dx^2, so LAPACK returns the constant mode only to
@@ -22,17 +22,28 @@ every input under NumPy >= 2 (``la.eig`` returns complex arrays, ``multi_dot(out
 to cast) -> mechanism ``fastdiag2d-solve-raises``.  Silent with /verif/fixes/F1.diff applied.
 
 Self-test (tools/mut.sh, quick tier, seed 0; 2-D mutants are patches on top of F1.diff):
-%(MUTATION_TABLE)s
+  2-D class (patch = F1.diff + one-line change), all VIOLATION:
+    poisson_matrix_x[0,0] = 2*inv_dx2 (boundary entry)      -> A_N u != f - mean f, mean u != 0, u != DCT solve, cosine mode
+    eig_val_matrix[-1,-1] = inf removed (mean mode kept)     -> mean u != 0, null-space rhs gives u != 0, u != DCT solve
+    y eigenvalues sorted ascending (argsort without [::-1])  -> mean u != 0, null-space rhs gives u != 0, cosine mode
+    y eigenvectors not permuted with their eigenvalues       -> A_N u != f - mean f, mean u != 0, cosine mode
+    transpose_of_eig_vecs_x = eig_vecs_x (transpose dropped) -> A_N u != f - mean f, mean u != 0, u != DCT solve
+    inv_dx2 = 1 (dx ignored) / inv_dx2 = 1/dx                -> A_N u != f - mean f, cosine mode, u != DCT solve
+  3-D class (one-line change of the pinned tree; F1 is reported in addition), all VIOLATION:
+    poisson_matrix_z[-1,-1] = 2*inv_dx2                      -> A_N u != f - mean f, mean u != 0, u != DCT solve
+    eig_val_matrix[-1,-1,-1] = inf removed                   -> output-not-finite, mean u != 0, null-space rhs gives u != 0
+    eig_val_matrix[0,0,0] = inf (wrong corner)               -> output-not-finite, mean u != 0, cosine mode
+    y eigenvalues sorted ascending                           -> output-not-finite, mean u != 0, cosine mode
+    forward y transform with axes=(0,1) (transposed matrix)  -> A_N u != f - mean f, null-space rhs gives u != 0, cosine mode
+    eig_vecs_z stored transposed                             -> A_N u != f - mean f, mean u != 0, u != DCT solve
+    inv_dx2 = 1 (dx ignored)                                 -> A_N u != f - mean f, cosine mode, u != DCT solve
+    vector_field_solve: y component solved from the x rhs    -> vector != 3 scalar solves
+  Unchanged tree + F1.diff: HELD for seeds 0..5 quick, 0..1 thorough (max err/tol 0.06)
 """
 import numpy as np
 
 from .. import util
 from ..ref import ops
-
-MUTATION_TABLE = """
-  (filled in after the self-test)
-"""
-__doc__ = __doc__ % {"MUTATION_TABLE": MUTATION_TABLE.strip("\n")}
 
 ID = "C11"
 LEVEL = "exploration"
@@ -48,7 +59,7 @@ RULE = (
 ASSUMPTIONS = [
     "ops.neg_laplacian_neumann (NumPy float64, mirrored ghost cells) is the trusted discrete operator",
     "scipy DCT-II (ops.neumann_solve) is the trusted independent solver for the second opinion",
-    "noise floor eps*(16 n_max^2 |f|max + 64 (4d/dx^2) |u|max): null-vector accuracy of LAPACK + backward error of the eigendecomposition; calibrated headroom >= 10x",
+    "noise floor eps*(32 n_max^2 |f|max + 64 (4d/dx^2) |u|max): null-vector accuracy of LAPACK + backward error of the eigendecomposition; calibrated headroom >= 10x",
 ]
 REQUIRE = {
     "residual_checks_2d": 20,
@@ -60,6 +71,8 @@ REQUIRE = {
     "slab_objects": 2,
     "second_opinion_checks": 40,
 }
+# 16 workers x 16 BLAS threads thrash; results do not depend on the BLAS thread count being small
+BLAS_ENV = {"OPENBLAS_NUM_THREADS": "2", "OMP_NUM_THREADS": "2", "MKL_NUM_THREADS": "2"}
 KINDS = ("noise", "big", "spikes", "impulse", "smooth", "const", "cos", "cos", "zero")
 
 
@@ -67,14 +80,14 @@ def shards(tier, seed):
     n = 16 if tier == "quick" else 48
     return [
         {"name": f"obj{i}-{2 + i % 2}d-{'f64' if (i // 2) % 2 == 0 else 'f32'}", "idx": i, "dim": 2 + i % 2,
-         "dtype": "float64" if (i // 2) % 2 == 0 else "float32"}
+         "dtype": "float64" if (i // 2) % 2 == 0 else "float32", "env": dict(BLAS_ENV)}
         for i in range(n)
     ]
 
 
 def tol_res(eps, shape, dx, fmax, umax):
     d = len(shape)
-    return eps * (16.0 * max(shape) ** 2 * fmax + 64.0 * (4.0 * d / dx**2) * umax) + 1e-300
+    return eps * (32.0 * max(shape) ** 2 * fmax + 64.0 * (4.0 * d / dx**2) * umax) + 1e-300
 
 
 def lam_min(shape, dx):
@@ -139,7 +152,7 @@ def run_shard(sh, rec):
     eps = util.eps(real_t)
     rng = util.rng_for(seed, ID, sh["idx"])
     hi = 24 if tier == "quick" else 64
-    nobj = 5 if tier == "quick" else 7
+    nobj = 8 if tier == "quick" else 20
     raises = f"fastdiag{d}d-solve-raises"
     for k in range(nobj):
         shape, scls = _shape(rng, d, hi, k, sh["idx"])
@@ -212,13 +225,13 @@ def run_shard(sh, rec):
                 bad = np.unravel_index(int(np.argmax(np.abs(res))), shape)
                 rec.violation("A_N u != f - mean f", f"max residual/tol={r:.3g} at {bad} rhs={kind} {info} {meta}", {"meta": case, "f": f, "u": u})
             # 2. zero mean
-            tm = eps * 16.0 * max(shape) ** 2 * umax + 1e-300
+            tm = eps * 32.0 * max(shape) ** 2 * umax + 1e-300
             r = abs(float(u64.mean())) / tm
             rec.stat("mean_u", r); rec.stat(f"mean_u_{sh['dtype']}_{d}d", r)
             if r > 1:
                 rec.violation("mean u != 0", f"|mean u|/tol={r:.3g} (mean {u64.mean():.3g}, |u|max {umax:.3g}) rhs={kind} {meta}", {"meta": case, "f": f, "u": u})
             # 3. second opinion on u itself; closed forms for the null space and single modes
-            Tu_f = eps * 16.0 * max(shape) ** 2 * fmax / lmin + 1e-300
+            Tu_f = eps * 32.0 * max(shape) ** 2 * fmax / lmin + 1e-300
             if kind == "const":
                 r = umax / Tu_f
                 rec.stat("const_rhs_u", r); rec.stat(f"const_rhs_u_{sh['dtype']}_{d}d", r)
